@@ -33,10 +33,18 @@ type Raw struct {
 	Val uint32 `json:"val"`
 }
 
+// Widen replicates the elements of one array of the document until it has N elements (width instead of depth:
+// many structurally identical siblings).
+type Widen struct {
+	Node uint32 `json:"node"`
+	N    int    `json:"n"`
+}
+
 // Plan is what one case does to a seed document.
 type Plan struct {
-	Muts []jsonmut.Mutation `json:"muts"`
-	Raw  *Raw               `json:"raw,omitempty"`
+	Muts  []jsonmut.Mutation `json:"muts"`
+	Widen *Widen             `json:"widen,omitempty"`
+	Raw   *Raw               `json:"raw,omitempty"`
 }
 
 // RawOps lists the raw operators.
@@ -49,6 +57,9 @@ func GenPlan(t *rapid.T, keys []string) Plan {
 	n := rapid.SampledFrom([]int{0, 1, 1, 1, 1, 1, 2, 2, 2, 3, 3}).Draw(t, "nmut")
 	for i := 0; i < n; i++ {
 		p.Muts = append(p.Muts, jsonmut.Gen(t, fmt.Sprintf("m%d", i), nil, keys))
+	}
+	if rapid.IntRange(0, 11).Draw(t, "haswiden") == 0 {
+		p.Widen = &Widen{Node: rapid.Uint32().Draw(t, "widen.node"), N: rapid.SampledFrom([]int{16, 128, 512}).Draw(t, "widen.n")}
 	}
 	if rapid.IntRange(0, 5).Draw(t, "hasraw") == 0 {
 		p.Raw = &Raw{
@@ -94,7 +105,55 @@ func (p Plan) ApplyDoc(doc any) (any, Applied) {
 		cur = out
 		a.Descs = append(a.Descs, d)
 	}
+	if p.Widen != nil {
+		if out, ptr, ok := widen(cur, *p.Widen); ok {
+			cur = out
+			a.Descs = append(a.Descs, jsonmut.Desc{Op: "widen", Pointer: ptr, Class: jsonmut.PointerClass(ptr), Detail: fmt.Sprintf("array replicated to %d elements", p.Widen.N)})
+		} else {
+			a.NoOps++
+		}
+	}
 	return cur, a
+}
+
+// widen replicates the elements of the selected non-empty array (selection = Node modulo the number of such arrays).
+func widen(doc any, w Widen) (any, string, bool) {
+	var arrays []string
+	for _, ptr := range jsonmut.Pointers(doc) {
+		if v, ok := jsonmut.Lookup(doc, ptr); ok {
+			if a, isArr := v.([]any); isArr && len(a) > 0 {
+				arrays = append(arrays, ptr)
+			}
+		}
+	}
+	if len(arrays) == 0 || w.N < 2 || w.N > 5000 {
+		return doc, "", false
+	}
+	target := arrays[int(w.Node%uint32(len(arrays)))]
+	var rec func(v any, ptr string) any
+	rec = func(v any, ptr string) any {
+		switch t := v.(type) {
+		case map[string]any:
+			m := make(map[string]any, len(t))
+			for k, e := range t {
+				m[k] = rec(e, ptr+"/"+strings.ReplaceAll(strings.ReplaceAll(k, "~", "~0"), "/", "~1"))
+			}
+			return m
+		case []any:
+			out := make([]any, 0, len(t))
+			for i, e := range t {
+				out = append(out, rec(e, fmt.Sprintf("%s/%d", ptr, i)))
+			}
+			if ptr == target {
+				for i := 0; len(out) < w.N; i++ {
+					out = append(out, jsonmut.Clone(out[i%len(t)]))
+				}
+			}
+			return out
+		}
+		return v
+	}
+	return rec(doc, ""), target, true
 }
 
 // Apply mutates a JSON text: structural mutations on the decoded document, re-encoding, then the raw mutation.
